@@ -224,11 +224,30 @@ def g2_onwards(ctx, rep):
         sinks = {emit.sig(c['args'][0]) for c in writes if c.get('args')}
         rep.check(len(sinks) == 1, 'G3', f'{qual}:single-sink', 'all item kinds go to one sink in list order',
                   f"{qual} writes item kinds into {len(sinks)} different sinks ({sorted({vt.show(c['args'][0])[:20] for c in writes})}): items of one kind are emitted out of the sorted order (e.g. constants before the aliases they use)", site)
-        loops = [l for l in d['loops'] if l.get('kind') == 'for' and (is_sorted_list(l['over']) or 'items' in vt.show(l['over']))]
-        wl = [l for l in loops if any(any(fr.get('k') == 'for' and fr.get('line') == l['line'] for fr in c['guard']) for c in writes)]
+        loops = [dict(l, frame=('for', l['line'])) for l in d['loops'] if l.get('kind') == 'for' and (is_sorted_list(l['over']) or 'items' in vt.show(l['over']))]
+        # the iterator spelling of the same loop: `sorted.iter().try_for_each(|item| write(item))` / `for_each`
+        for c in d['calls']:
+            if c.get('f') in ('try_for_each', 'for_each') and c.get('recv') is not None and c.get('args'):
+                clo = vt.unvar(c['args'][0])
+                src = c['recv']
+                for _ in range(8):
+                    src = vt.unvar(src)
+                    if isinstance(src, dict) and src.get('k') == 'call' and src.get('recv') is not None and src.get('f') in ('iter', 'into_iter', 'iter_mut'):
+                        src = src['recv']
+                    elif isinstance(src, dict) and src.get('k') in ('ref', 'deref', 'paren'):
+                        src = src.get('v')
+                    else:
+                        break
+                if isinstance(clo, dict) and clo.get('k') == 'closure' and clo.get('id') is not None and isinstance(src, dict) and is_sorted_list(src):
+                    loops.append({'kind': 'for', 'line': c.get('line'), 'over': c['recv'], 'frame': ('closure', clo['id'])})
+
+        def inside(c, l):
+            kind_, ident = l['frame']
+            return any(fr.get('k') == kind_ and (fr.get('line') == ident if kind_ == 'for' else fr.get('id') == ident) for fr in c['guard'])
+        wl = [l for l in loops if any(inside(c, l) for c in writes)]
         rep.check(len(wl) == 1, 'G3', f'{qual}:one-write-loop', 'one loop over the sorted list', f'{qual}: {len(wl)} loops write items', site)
         if len(wl) == 1:
-            outside = [c for c in writes if not any(fr.get('k') == 'for' and fr.get('line') == wl[0]['line'] for fr in c['guard'])]
+            outside = [c for c in writes if not inside(c, wl[0])]
             rep.check(not outside, 'G3', f'{qual}:every-write-in-the-sorted-loop', 'items are written only while walking the sorted list', f"{qual}: `{outside[0]['f'] if outside else ''}` is {'reached through ' + str(outside[0].get('via')) + ' ' if outside and outside[0].get('via') else ''}called outside the loop over the sorted list — that item kind is written at a position the topological order did not choose", {'file': d['file'], 'line': outside[0].get('via_line') or outside[0].get('line') if outside else d['line']})
         for l in wl:
             # adaptors between the sorted list and the loop variable
